@@ -897,7 +897,13 @@ def run(ctx):
                 names = Names()
                 for f in w.ifuns:
                     names.ifun(f)
-                spec = topdown(em, e, dict(content))
+                try:
+                    spec = topdown(em, e, dict(content))
+                except BaseException as ex:
+                    direct_failures += 1
+                    ctx.fail("oracle", "history call: independent replacement raised %r but the implementation returned %s" % (ex, res),
+                             tags + ["oracle-raises"], rec, False)
+                    continue
                 if res != spec:
                     direct_failures += 1
                     ctx.fail("oracle", "history call: result %s != top-down replacement %s" % (res, spec), tags + ["result!=topdown"], rec, True)
